@@ -12,8 +12,8 @@ P = {
             "(type and value); a payload lane packs/unpacks the 16-byte number record for every integer and price sub-range.",
             "Positions are capped at row ~1100 / column ~1000 for cost; values follow the property's stated domains."),
     "C02": ("metamorphic round-trip over whole-document snapshots", "4 C02",
-            "Every supported fixture and generated documents are re-saved 2-3 times with generated accessor vectors; "
-            "whole-document snapshots (type, value, formula, formatted value, merges, bullets) must be identical.",
+            "Every supported fixture and generated documents are re-saved 2-3 times with generated accessor vectors, as single files and in "
+            "package-folder form (fresh folder, same folder, two saves from one handle); whole-document snapshots (type, value, formula, formatted value, merges, bullets) must be identical.",
             "The snapshot is taken through the public API; cells/tables the library warns it cannot write are exempt as the property says."),
     "C03": ("model-based stateful PBT (Hypothesis RuleBasedStateMachine) + bounded-exhaustive short histories", "4 C03",
             "Edit histories run in lock-step against a list-of-lists model across several documents/tables; every short history on tiny tables is enumerated.",
@@ -34,7 +34,8 @@ P = {
             "Expression trees are serialised to Numbers' post-fix node arrays, stored, re-read through Cell.formula and parsed by an independent precedence-climbing parser; trees must be equal.",
             "Formula archives are installed through private structures (no public writer); observation is public."),
     "C09": ("configuration generation + independent reference resolver", "4 C09",
-            "Naming configurations and reference nodes are generated; printed references are resolved by an independent resolver and must name exactly the stored target.",
+            "Naming configurations and reference nodes are generated; printed references are resolved by an independent resolver and must name exactly the stored target, also after label edits, renames, "
+            "header-count changes, insertions, header merges and header formats on the open document (cache invalidation).",
             "Bare table names resolve host sheet first, then document; over-qualification is allowed."),
     "C10": ("exhaustive enumeration against an independent bijective base-26 codec", "4 C10",
             "Every column name of up to three letters and every row up to the documented limit is encoded and decoded by every conversion function and compared with an independent codec; enumeration makes this a decision per axis.",
@@ -43,22 +44,22 @@ P = {
             "Every position-taking method is driven with both notations of the same generated position against a grid model; boundary products of iterator bounds are enumerated.",
             "Growth is exercised to ~1200 rows / 1000 columns; the limits themselves only on the rejecting side."),
     "C12": ("model-based stateful PBT + exhaustive rectangles on small tables", "4 C12",
-            "Disjoint rectangle sets and subsequent edit histories are checked against a rectangle model on the open document and after reload.",
+            "Disjoint rectangle sets and subsequent edit histories (writes incl. placeholders, structural edits, tables added after a save, tall tables) are checked against a rectangle model on the open document and after reload.",
             "For edits that cut through a rectangle only internal consistency is required (shape unspecified)."),
     "C13": ("PBT with exact-decimal read-back oracle", "4 C13",
-            "Generated (value, format) pairs are rendered and the text is parsed back in that notation with exact rational arithmetic; |parsed - value| must be within half a unit of the last displayed place.",
+            "Generated (value, format) pairs - and sequences of formats on one cell - are rendered and the text is parsed back in that notation with exact rational arithmetic; |parsed - value| must be within half a unit of the last displayed place.",
             "Either tie-breaking rule is accepted; automatic decimals only require the numeric relation."),
     "C14": ("per-field exhaustive enumeration + PBT compositions against documented meaning", "4 C14",
             "Every directive is rendered for every value of the field it depends on and compared with calendar arithmetic; durations are read back unit by unit.",
             "English names; where docs and Numbers-authored workbooks disagree the documented set is accepted."),
     "C15": ("model-based PBT (attribute model + last-writer-wins edge model)", "4 C15",
-            "Generated styles and stroke sequences are compared with an attribute/edge model on the open document and after reload.",
+            "Generated styles and stroke sequences (incl. merges, table growth, shared Border objects, edits of saved styles) are compared with an attribute/edge model on the open document and after reload; packages saved with and without reading styles are compared object by object.",
             "Float attributes are generated float32-representable; widths with <=2 decimals."),
     "C16": ("metamorphic round-trip over geometry snapshots, queried vs unqueried", "4 C16",
-            "Geometry snapshots of fixtures and generated documents must survive cycles, independent of which getters were called.",
+            "Geometry snapshots of fixtures, of fixtures with sizes set through the API, and of generated documents (settings before or after a first save) must survive cycles, independent of which getters were called.",
             "Sizes are integer points in 5..500."),
     "C17": ("structure-aware fault injection with an exception-type oracle", "4 C17",
-            "Generated truncations, bit flips and per-member faults are applied to real files; Document(path) must return or raise one of the three library error types while the loader is on the stack.",
+            "Generated truncations, bit flips, per-member faults (incl. well-formed but unusable headers and plists) and missing paths are applied to real files in single-file, package-folder and nested-Index.zip form; Document(path) must return or raise one of the three library error types while the loader is on the stack.",
             "Exceptions raised after the container loader returned are out of scope and only counted."),
     "C18": ("exhaustive short strings + PBT + reader-output corpus with a lossless/total oracle", "4 C18",
             "All short strings over the tokenizer's alphabet, generated strings, every formula text the reader emits for fixtures and generated references are tokenized; only TokenizerError may escape and tokens must concatenate to the input.",
